@@ -58,7 +58,7 @@ RULE = ("Hypothesis draws a simulation description (interior size 3-12 per "
         "ground truth. Non-trivial = the level read has >= 2 chunks along "
         ">= 1 axis and a non-cubic interior size.")
 # a run that exceeds this ends as "explored less" (never a violation)
-BUDGET_S = {"quick": 85, "thorough": 1150}
+BUDGET_S = {"quick": 85, "thorough": 1050}
 ASSUMPTIONS = [
     "file format modelled on the repository fixtures (dataset key, (z,y,x) "
     "axis order, cctk_nghostzones / iorigin / time attributes, iorigin in "
